@@ -320,7 +320,13 @@ class Ctx:
                 continue
             seen.add(key)
             if shown < 10:
-                print("VIOLATION property=%s replay=%s  (%s)" % (self.pid, path, key))
+                # X<NN> checks bind parts of the specification that no listed property speaks about
+                # (extended coverage, DESIGN.md section 13): a mismatch there is reported as drift
+                # between specification and code, never as a property violation
+                if self.pid.startswith("X"):
+                    print("SPEC-DRIFT spec=%s replay=%s  (%s)" % (self.pid, path, key))
+                else:
+                    print("VIOLATION property=%s replay=%s  (%s)" % (self.pid, path, key))
                 shown += 1
         cov = {
             "states": self.states, "transitions": self.transitions,
@@ -338,8 +344,9 @@ class Ctx:
         ev = {"property_id": self.pid, "tier": self.tier, "seed": self.seed,
               "level": self.level, "coverage": cov, "assumptions": self.assumptions,
               "wall_s": round(wall, 2), "violations": len(self.violations)}
-        os.makedirs(os.path.join(ROOT, "evidence"), exist_ok=True)
-        with open(os.path.join(ROOT, "evidence", self.pid + ".json"), "w") as f:
+        evdir = "coverage" if self.pid.startswith("X") else "evidence"
+        os.makedirs(os.path.join(ROOT, evdir), exist_ok=True)
+        with open(os.path.join(ROOT, evdir, self.pid + ".json"), "w") as f:
             json.dump(ev, f, indent=1, default=str)
         log("%s %s: %d violation(s), %d known finding(s), %.1fs" %
             (self.pid, self.tier, len(self.violations), len(self.known_hit), wall))
